@@ -2795,6 +2795,17 @@ func c05PreservesNonNil(v ssa.Value, olds map[ssa.Value]bool) bool {
 	if !ok {
 		return false
 	}
+	// errors.Join(old, more...) / cmp.Or(old, other): non-nil as soon as one argument is
+	if n := CalleeName(call); n == "errors.Join" || n == "cmp.Or" {
+		for _, a := range call.Call.Args {
+			for _, x := range append(c05VariadicElems(a), a) {
+				if olds[x] || olds[strip(x)] {
+					return true
+				}
+			}
+		}
+		return false
+	}
 	h := StaticCallee(call)
 	if h == nil || !inModule(h) || len(h.Blocks) == 0 || h.Recover != nil {
 		return false
